@@ -29,6 +29,10 @@ def send(port, prog=1):
     return op("send", port=port, prog=prog)
 
 
+def bcast(prog=1):
+    return op("bcast", prog=prog)
+
+
 BENCHES = {}
 
 
@@ -182,6 +186,18 @@ bench("flood4", models=["m1", "m2", "m3", "m4"],
             [send(1, prog=4), send(1, prog=1), send(1, prog=1), send(1, prog=1)],   # 3 (m1): to m2
             [send(1, prog=5)],      # 4 (m2): to m3
             [send(1, prog=1)]],     # 5 (m3): no recipient
+      mc=mc(MaxCmds=1, MaxTime=1, MaxQueue=1, sched=[], until=[], step=False, proc=[P(1, 2, kind="action")]))
+
+
+# C19: a model suspended in the middle of a *broadcast* (two connections: the per-recipient send futures of the broadcast
+# future hold the message clones) when another model fails; also with a deadlock (nobody fails, m2 queries itself).
+bench("flood5", models=["m1", "m2", "m3", "m4"],
+      conn={"m1": ["m2", "m3"], "m2": ["m4"], "m3": ["DEAD"], "m4": []},
+      srcconn=[["m1"]],
+      prog=[[NOP],
+            [bcast(prog=3), bcast(prog=3), bcast(prog=3), bcast(prog=3), bcast(prog=3)],   # 2 (m1): broadcast to m2 and m3
+            [send(1, prog=1)],      # 3: at m2 forwards to m4; at m3 the send has no recipient (failure)
+            [NOP]],
       mc=mc(MaxCmds=1, MaxTime=1, MaxQueue=1, sched=[], until=[], step=False, proc=[P(1, 2, kind="action")]))
 
 
